@@ -289,6 +289,7 @@ class TracedCtl(ctl_sched.Ctl):
         self.vids = {}
         self.opt_counts = []
         self.taken = []
+        self.script = None
 
     def remember(self, job):
         """Spec id of a real Job = its position in the job tree (parent's spec, index among the parent's
@@ -327,7 +328,14 @@ class TracedCtl(ctl_sched.Ctl):
         opts = (["p"] if queue_nonempty else []) + list(range(len(self.inflight)))
         if not opts:
             return None
-        if self.decisions is not None:
+        if self.script is not None:
+            want = self.script.pop(0) if self.script else "p"
+            if want == "p":
+                k = 0 if queue_nonempty else 0
+            else:
+                idx = next((i for i, j in enumerate(self.inflight) if str(self.remember(j)) == want[1:]), 0)
+                k = (1 if queue_nonempty else 0) + idx
+        elif self.decisions is not None:
             d = self.decisions.pop(0) if self.decisions else 0
             k = d % len(opts)
         elif self.drng is not None:
@@ -396,7 +404,7 @@ def attach_traced(ctl: TracedCtl, sched):
 
 
 def run_real(p: Program, decisions=None, rng=None, dryrun=False, sched=None, p_complete=0.3, after_event=None,
-             max_events=20000):
+             max_events=20000, script=None):
     """Run program `p` on the real scheduler under a controlled schedule.
     Returns (status, payload, ctl, sched)."""
     from redun.scheduler import DryRunResult
@@ -404,6 +412,7 @@ def run_real(p: Program, decisions=None, rng=None, dryrun=False, sched=None, p_c
     expr, tasks = build_real(p)
     ctl = TracedCtl(decisions=decisions, rng=rng, p_complete=p_complete, after_event=after_event, max_events=max_events)
     ctl.program = p
+    ctl.script = list(script) if script is not None else None
     if sched is None:
         sched = ctl_sched.make_scheduler(None, limits=p.limits_cfg)
     attach_traced(ctl, sched)
